@@ -25,6 +25,9 @@ def seeds_table():
         other = sorted(f"{c}(rc={r['rc']})" for c, r in res.items() if r["rc"] not in (0, 1))
         target = meta["breaks_property"]
         first = res.get(target, {}).get("first", "")
+        if meta.get("obsolete_since"):
+            caught = [f"(no longer a regression since /repo {meta['obsolete_since']}; reported by {target} on the tree it was written for)"]
+            silent, other = [], []
         rows.append((sid, target, meta["change"], meta["needs_to_manifest"], caught, silent, other, first))
     return rows
 
@@ -37,7 +40,7 @@ def main():
            "quick checks (VERIF_SEED=1) and restored /repo.", "",
            "| id | property | change | needs, to manifest | caught by | silent (also run) |", "|---|---|---|---|---|---|"]
     for sid, target, change, needs, caught, silent, other, first in rows:
-        tgt = "**" + target + "**" if target in caught else (target + " (silent; caught by " + ", ".join(caught) + ")" if caught else target + " (MISSED)")
+        tgt = target + " (obsolete)" if caught and caught[0].startswith("(no longer") else "**" + target + "**" if target in caught else (target + " (silent; caught by " + ", ".join(caught) + ")" if caught else target + " (MISSED)")
         out.append(f"| {sid} | {tgt} | {change} | {needs} | {', '.join(caught) or '-'} | {', '.join(silent + other) or '-'} |")
     out += ["", "First violation line of the target check, per seed:", ""]
     for sid, target, change, needs, caught, silent, other, first in rows:
